@@ -74,26 +74,55 @@ Lemma guard_ok s tokens si sj ei ej bs be : Inv0 s ->
   nth_error (s_blocks s) si = Some bs -> nth_error (s_blocks s) ei = Some be ->
   (sj <= length (toks s bs))%nat -> (ej <= length (toks s be))%nat ->
   let F n := length (flat_map (toks s) (firstn n (s_blocks s))) in
-  (forall t, In t tokens -> ~ In t (abs s) \/ In t (firstn (F ei + ej - (F si + sj)) (skipn (F si + sj) (abs s)))) ->
+  (forall t, In t tokens -> free s t \/ In t (firstn (F ei + ej - (F si + sj)) (skipn (F si + sj) (abs s)))) ->
   existsb (fun t =>
        match t_handle (tget (s_toks s) t) with
        | None => false
-       | Some (hb, hi) =>
-         negb (pair_le (Z.of_nat si, Z.of_nat sj) (b_index (bget (s_heap s) hb), hi) &&
-               pair_lt (b_index (bget (s_heap s) hb), hi) (Z.of_nat ei, Z.of_nat ej))
+       | Some (sid, hb, hi) =>
+         negb (Pos.eqb sid (s_id s) &&
+               (pair_le (Z.of_nat si, Z.of_nat sj) (b_index (bget (s_heap s) hb), hi) &&
+                pair_lt (b_index (bget (s_heap s) hb), hi) (Z.of_nat ei, Z.of_nat ej)))
        end) tokens = false.
 Proof.
-  intros I Hbs Hbe Lsj Lej F Hv. apply existsb_false. intros t Ht. fold (hnd s t).
-  destruct (hnd s t) as [[hb hi]|] eqn:Eh; [|reflexivity].
-  assert (In t (abs s)) as Hin by (apply (g_hin _ _ I); rewrite Eh; discriminate).
-  destruct (Hv t Ht) as [?|Hr]; [contradiction|].
+  intros I Hbs Hbe Lsj Lej F Hv. apply existsb_false. intros t Ht. fold (raw s t).
+  destruct (raw s t) as [[[sid hb] hi]|] eqn:Er; [|reflexivity].
+  destruct (Hv t Ht) as [Hf|Hr]; [unfold free in Hf; congruence|].
+  assert (In t (abs s)) as Hin by (apply in_firstn, in_skipn in Hr; exact Hr).
   apply In_nth_error in Hin as [k Hk].
-  destruct (locate_inv s k t I Hk) as (i & b & j & Hb & Htj & Ek & Hh & Hi). rewrite Eh in Hh. injection Hh as -> ->.
+  destruct (locate_inv s k t I Hk) as (i & b & j & Hb & Htj & Ek & Hh & Hi).
+  apply hnd_raw in Hh. rewrite Er in Hh. injection Hh as -> -> ->. rewrite Pos.eqb_refl.
   fold (bidx s b). rewrite Hi.
   pose proof (in_range_idx _ _ _ _ _ (g_ndt _ _ I) Hk Hr) as Hrange.
   destruct (flat_pos_lex (toks s) (s_blocks s) i b j si sj ei ej be Hb (nth_error_in_len _ _ _ Htj) Hbe Lej) as [L1 L2].
   { cbv zeta. subst F. cbv beta in *. lia. }
   unfold pair_le, pair_lt. cbn [fst snd]. lia.
+Qed.
+
+Lemma has_dup_false l : NoDup l -> has_dup l = false.
+Proof.
+  induction 1 as [|x r Hx ND IH]; [reflexivity|]. cbn [has_dup]. rewrite IH, orb_false_r.
+  apply existsb_false. intros y Hy. destruct (Pos.eqb_spec x y); [subst; contradiction|reflexivity].
+Qed.
+Lemma has_dup_true l : ~ NoDup l -> has_dup l = true.
+Proof.
+  intro H. destruct (has_dup l) eqn:E; [reflexivity|]. exfalso. apply H. clear H.
+  induction l as [|x r IH]; [constructor|]. cbn [has_dup] in E. apply orb_false_elim in E as [E1 E2].
+  constructor; [|apply IH; exact E2]. intro Hin.
+  assert (existsb (Pos.eqb x) r = true) as C; [|congruence]. apply existsb_exists. exists x. split; [exact Hin|apply Pos.eqb_refl].
+Qed.
+
+Lemma splice_frames (l tokens : list positive) p q : NoDup l -> (p <= q)%nat ->
+  (forall t, ~ In t l -> ~ In t tokens -> ~ In t (firstn p l ++ tokens ++ skipn q l)) /\
+  (forall t, In t (firstn (q - p) (skipn p l)) -> ~ In t tokens -> ~ In t (firstn p l ++ tokens ++ skipn q l)).
+Proof.
+  intros ND Lpq. split.
+  - intros t Hl Ht Hin. apply in_app_or in Hin as [H|H]; [apply Hl; eapply in_firstn; exact H|].
+    apply in_app_or in H as [H|H]; [contradiction|apply Hl; eapply in_skipn; exact H].
+  - intros t Hr Hn Hin. rewrite (three_split l p q Lpq) in ND.
+    apply NoDup_app_iff in ND as (_ & N2 & D1). apply NoDup_app_iff in N2 as (_ & _ & D2).
+    apply in_app_or in Hin as [H|H].
+    + apply (D1 t H). apply in_or_app. left. exact Hr.
+    + apply in_app_or in H as [H|H]; [contradiction|exact (D2 t Hr H)].
 Qed.
 
 Lemma InvG_with_len X s n : InvG X s -> InvG X (with_len s n).
@@ -154,14 +183,16 @@ Lemma single_pre :
   abs s2 = flat_map (toks s) pre ++ NT ++ flat_map (toks s) post /\
   toks s2 b = NT /\
   (forall t, tsz (s_toks s2) t = tsz (s_toks s) t /\ txt s2 t = txt s t) /\
-  (forall t, hnd s2 t = if in_dec Pos.eq_dec t R then None else hnd s t).
+  (forall t, raw s2 t = if in_dec Pos.eq_dec t R then None else raw s t).
 Proof.
   pose proof (blocks_split_at s i b Hb) as E. fold pre post in E.
   destruct (seg_facts _ s pre [b] post I E) as (ND & Dis & Ea & NDa & Hpp & Hold).
   assert (toks s2 b = NT) as Tb by (unfold s2; rewrite set_blk_toks, Pos.eqb_refl; reflexivity).
   assert (forall t, tsz (s_toks s2) t = tsz (s_toks s) t /\ txt s2 t = txt s t) as Hsz.
   { intro t. split; [apply unhandle_size|apply unhandle_text]. }
-  assert (forall t, hnd s2 t = if in_dec Pos.eq_dec t R then None else hnd s t) as Hh by (intro t; apply unhandle_handle).
+  assert (forall t, raw s2 t = if in_dec Pos.eq_dec t R then None else raw s t) as Hraw by (intro t; apply unhandle_handle).
+  assert (forall t, hnd s2 t = if in_dec Pos.eq_dec t R then None else hnd s t) as Hh.
+  { intro t. unfold hnd. rewrite Hraw. change (s_id s2) with (s_id s). destruct (in_dec Pos.eq_dec t R); reflexivity. }
   assert (forall t, In t R -> In t T) as HRT by (intros t Ht; unfold R in Ht; apply in_firstn, in_skipn in Ht; exact Ht).
   cbn [flat_map] in Ea, NDa. rewrite app_nil_r in Ea, NDa. fold T in Ea, NDa.
   destruct (seg_replace (fun _ => False) (eq b) s s2 pre [b] [b] post NT I E) as [I' Ea'].
@@ -192,13 +223,14 @@ Qed.
 
 (* the fast path *)
 Let ld2 := - sum_lines (s_toks s) R + sum_lines (s_toks s2) tokens.
-Let s3 := set_blk (with_toks s2 (rehandle (s_toks s2) b (Z.of_nat sj) (skipn sj NT))) b
+Let s3 := set_blk (with_toks s2 (rehandle (s_toks s2) (s_id s2) b (Z.of_nat sj) (skipn sj NT))) b
             (mkblk (b_index (bget (s_heap s2) b)) (b_toks (bget (s_heap s2) b))
                (mkpos (line (b_size (bget (s_heap s2) b)) + ld2) (col (b_size (bget (s_heap s2) b))))
                (b_lnl (bget (s_heap s2) b) + (zlen tokens - Z.of_nat (ej - sj)))).
 
 Lemma fast_path : (NT = [] -> s_blocks s = [b]) -> blnl s b >= Z.of_nat ej ->
-  Inv0 s3 /\ abs s3 = abs s2 /\ (forall t, tsz (s_toks s3) t = tsz (s_toks s) t /\ txt s3 t = txt s t).
+  Inv0 s3 /\ abs s3 = abs s2 /\ (forall t, tsz (s_toks s3) t = tsz (s_toks s) t /\ txt s3 t = txt s t) /\
+  (forall t, ~ In t NT -> tget (s_toks s3) t = tget (s_toks s2) t).
 Proof.
   intros Hne Hl. destruct single_pre as (I2 & Ea2 & Tb & Hsz2 & Hh2).
   pose proof (blocks_split_at s i b Hb) as E. fold pre post in E.
@@ -230,25 +262,27 @@ Proof.
   - cbn [flat_map]. rewrite T3. apply app_nil_r.
   - exact NDa.
   - exact Hsz3.
-  - intros t Hn _. unfold hnd, s3. cbn [s_toks set_blk with_heap with_toks].
+  - intros t Hn _. apply hnd_ext_tget; [reflexivity|]. unfold s3. cbn [s_toks set_blk with_heap with_toks].
     rewrite rehandle_other; [reflexivity|]. intro Hin. apply Hn. eapply in_skipn; eassumption.
   - intros t Hn Ho. cbn [flat_map] in Ho. rewrite app_nil_r, Tb in Ho. contradiction.
   - intros b0 [<-|[]] _. split; [split|].
     + (* handles *)
-      intros j t Hjt. rewrite T3 in Hjt. unfold hnd, s3. cbn [s_toks set_blk with_heap with_toks].
+      intros j t Hjt. rewrite T3 in Hjt.
       destruct (Nat.lt_ge_cases j sj) as [L|L].
       * assert (nth_error T j = Some t) as HTj.
         { unfold NT in Hjt. rewrite nth_error_app1, nth_error_firstn_lt in Hjt by lia. exact Hjt. }
-        rewrite rehandle_other.
-        -- fold (hnd s2 t). rewrite Hh2. destruct (in_dec Pos.eq_dec t R) as [Hr|_].
-           ++ exfalso. unfold R in Hr. apply in_firstn in Hr. apply In_nth_error in Hr as [j' Hj'].
-              rewrite nth_error_skipn_add in Hj'. rewrite NoDup_nth_error in NDT.
-              assert (j = (sj + j')%nat); [|lia]. apply NDT; [eapply nth_error_in_len; eassumption|congruence].
-           ++ destruct (g_ok _ _ I b Hbin) as [[Hh _] _]; [tauto|]. apply Hh. exact HTj.
-        -- intro Hin. apply In_nth_error in Hin as [j' Hj']. rewrite nth_error_skipn_add in Hj'.
-           rewrite NoDup_nth_error in NDNT. assert (j = (sj + j')%nat); [|lia].
-           apply NDNT; [eapply nth_error_in_len; eassumption|congruence].
-      * rewrite (rehandle_in _ _ _ _ (j - sj) t).
+        assert (hnd s3 t = hnd s2 t) as ->.
+        { apply hnd_ext_tget; [reflexivity|]. unfold s3. cbn [s_toks set_blk with_heap with_toks]. apply rehandle_other.
+          intro Hin. apply In_nth_error in Hin as [j' Hj']. rewrite nth_error_skipn_add in Hj'.
+          rewrite NoDup_nth_error in NDNT. assert (j = (sj + j')%nat); [|lia].
+          apply NDNT; [eapply nth_error_in_len; eassumption|congruence]. }
+        unfold hnd. rewrite Hh2. change (s_id s2) with (s_id s). destruct (in_dec Pos.eq_dec t R) as [Hr|_].
+        -- exfalso. unfold R in Hr. apply in_firstn in Hr. apply In_nth_error in Hr as [j' Hj'].
+           rewrite nth_error_skipn_add in Hj'. rewrite NoDup_nth_error in NDT.
+           assert (j = (sj + j')%nat); [|lia]. apply NDT; [eapply nth_error_in_len; eassumption|congruence].
+        -- destruct (g_ok _ _ I b Hbin) as [[Hh _] _]; [tauto|]. apply Hh. exact HTj.
+      * apply hnd_of_raw. unfold raw, s3. cbn [s_toks s_id set_blk with_heap with_toks].
+        rewrite (rehandle_in _ _ _ _ _ (j - sj) t).
         -- f_equal. f_equal. lia.
         -- rewrite <- (firstn_skipn sj NT) in NDNT. apply NoDup_app_iff in NDNT. tauto.
         -- rewrite nth_error_skipn_add. replace (sj + (j - sj))%nat with j by lia. exact Hjt.
@@ -260,8 +294,10 @@ Proof.
       f_equal; [|unfold zlen; lia]. apply pos_eq; cbn [line col]; [|reflexivity].
       unfold ld2. rewrite (sum_lines_ext (s_toks s) (s_toks s2)) by (intros; unfold tsz; apply unhandle_size). reflexivity.
     + rewrite T3, <- E. exact Hne.
-  - split; [exact I'|]. split; [rewrite Ea', Ea; reflexivity|].
-    intro t. destruct (Hsz3 t) as [-> ->]. apply Hsz2.
+  - split; [exact I'|]. split; [rewrite Ea', Ea; reflexivity|]. split.
+    + intro t. destruct (Hsz3 t) as [-> ->]. apply Hsz2.
+    + intros t Hn. unfold s3. cbn [s_toks set_blk with_heap with_toks]. apply rehandle_other.
+      intro Hin. apply Hn. eapply in_skipn; eassumption.
 Qed.
 End Single.
 
@@ -297,7 +333,8 @@ Lemma multi_pre :
   abs s3' = flat_map (toks s) pre ++ NT ++ flat_map (toks s) post /\
   nth_error (s_blocks s3') si = Some nb /\
   (forall t, tsz (s_toks s3') t = tsz (s_toks s) t /\ txt s3' t = txt s t) /\
-  s_len s3' = s_len s.
+  s_len s3' = s_len s /\ s_id s3' = s_id s /\
+  (forall t, raw s3' t = if in_dec Pos.eq_dec t R then None else raw s t).
 Proof.
   pose proof (mid_split _ _ _ _ _ Lt Hbs Hbe) as E. fold pre post mids in E.
   set (OLD := bs :: mids ++ [be]) in *.
@@ -307,13 +344,16 @@ Proof.
     rewrite <- (firstn_skipn sj (toks s bs)) at 1. rewrite <- (firstn_skipn ej (toks s be)) at 1.
     fold B1 R1 R3 B2 midtoks. unfold R. rewrite <- !app_assoc. reflexivity. }
   rewrite Eold in Ea, NDa.
-  assert (forall t, hnd s3' t = if in_dec Pos.eq_dec t R then None else hnd s t) as Hh.
-  { intro t. unfold s3'. rewrite ubi_hnd. unfold hnd. change (s_toks s3) with tk3. unfold tk3.
+  assert (s_id s3' = s_id s) as Esid by (unfold s3'; rewrite ubi_sid; reflexivity).
+  assert (forall t, raw s3' t = if in_dec Pos.eq_dec t R then None else raw s t) as Hraw.
+  { intro t. unfold s3', raw. rewrite ubi_toksmap. change (s_toks s3) with tk3. unfold tk3.
     rewrite !unhandle_handle. unfold R.
     destruct (in_dec Pos.eq_dec t R3), (in_dec Pos.eq_dec t midtoks), (in_dec Pos.eq_dec t R1),
       (in_dec Pos.eq_dec t (R1 ++ midtoks ++ R3)) as [Hi|Hi]; try reflexivity;
       exfalso; try (apply Hi; apply in_or_app; auto; right; apply in_or_app; auto).
     apply in_app_or in Hi as [?|Hi]; [contradiction|]. apply in_app_or in Hi as [?|?]; contradiction. }
+  assert (forall t, hnd s3' t = if in_dec Pos.eq_dec t R then None else hnd s t) as Hh.
+  { intro t. unfold hnd. rewrite Hraw, Esid. destruct (in_dec Pos.eq_dec t R); reflexivity. }
   assert (forall t, tsz (s_toks s3') t = tsz (s_toks s) t /\ txt s3' t = txt s t) as Hsz.
   { intro t. unfold s3', txt. rewrite ubi_toksmap. change (s_toks s3) with tk3. unfold tk3, tsz.
     rewrite !unhandle_size, !unhandle_text. auto. }
@@ -361,6 +401,6 @@ Proof.
   - split; [exact I'|]. split; [exact Ea'|]. split; [|split; [exact Hsz|]].
     + unfold s3'. rewrite ubi_blocks. change (s_blocks s3) with (pre ++ [nb] ++ post).
       rewrite nth_error_app2, Lpre, Nat.sub_diag by lia. reflexivity.
-    + unfold s3'. rewrite ubi_len. reflexivity.
+    + split; [unfold s3'; rewrite ubi_len; reflexivity|]. split; [exact Esid|exact Hraw].
 Qed.
 End Multi.
